@@ -99,6 +99,17 @@ CHECKS = {
           "feedback signal; a truncated tail does not damage earlier records) — validated end to end in the thorough tier only; kill "
           "points are event-driven, not instruction-level.",
  },
+ "C05": {
+  "text": "Theorem over the stage model for every seed tree, configuration, normaliser and seen-store: each node preprocess attaches a "
+          "request to (seed, redirect target or asset) was accepted by the URL normaliser and passes the include / exclude / regex "
+          "filters with its normalised URL; the scope predicate's meaning is spelled out; archive.org / archive-it.org are excluded by "
+          "default (fact); archive() fetches only PreProcessed nodes (fact). Facts: filter order and shapes, remove-vs-complete "
+          "branches, dedupe/seencheck/request placement. Scripted sites x random filter combinations run through the real preprocess "
+          "(real normaliser) / ProcessBody / postprocess / CompleteAndCheck; each step is replayed on the model and every built request "
+          "is judged by an independent reference predicate.",
+  "note": COMMON_NOTE + "Modelled not verified: the URL parser and the regex engine are oracles (the normaliser's own shape guarantees are "
+          "C09's); archive() is replaced by scripted answers at this level and runs for real only in the end-to-end scenarios.",
+ },
 }
 
 _todo = "check not built yet in this session (work in progress; see DESIGN.md §4 for the planned model and theorems)"
